@@ -23,6 +23,7 @@
 -/
 import FerrousSpec.Proofs.ExpiryIndex
 import FerrousSpec.Proofs.ExpiryTtl
+import FerrousSpec.Proofs.ExpiryMulti
 import FerrousSpec.Gen.Expiry
 import FerrousSpec.Props.C01
 set_option linter.unusedSimpArgs false
@@ -580,6 +581,74 @@ theorem ttl_reply_spec_repaired (ns : Nat) (h : 0 < ns) :
     ttlOfRemainingWith true ns = Spec.ttlSeconds ns ∧ ttlOfRemainingWith true 0 = -2 ∧
     ttlOfRemainingWith false ns = ttlOfRemaining ns :=
   ⟨ttlOfRemainingWith_fixed_ceil ns h, by decide, ttlOfRemainingWith_unfixed ns⟩
+
+/-! ### (7) One command is one step with respect to the clock -/
+
+/-- MULTI-MEMBER WRITE, ATOMIC: a write of `n` members made as ONE storage call that has a lazy test — at ANY instant, on
+    ANY state — applies wholly to the key that is visible at that instant (all `n` members join it, its deadline kept) or
+    wholly to a fresh key without TTL (the key being absent or its deadline passed); never to a strict subset. -/
+theorem multi_member_write_atomic (c : Cfg) (fn : String) (hl : c.lazy fn = true) (k : Key) (n now : Nat) (s : Shard)
+    (hn : NodupKeys s.data) :
+    (∃ e, lookup (Spec.purge now s.data) k = some e ∧ e.tag = .zset ∧
+        lookup (step c (.update fn k .zset n) now s).1.data k = some { e with val := e.val + n } ∧
+        (step c (.update fn k .zset n) now s).2 = .num (e.val + n)) ∨
+    (lookup (Spec.purge now s.data) k = none ∧
+        lookup (step c (.update fn k .zset n) now s).1.data k = some ⟨.zset, n, none⟩ ∧
+        (step c (.update fn k .zset n) now s).2 = .num n) ∨
+    (∃ e, lookup (Spec.purge now s.data) k = some e ∧ e.tag ≠ .zset ∧ (step c (.update fn k .zset n) now s).2 = .wrongType) := by
+  have hs := enter_snd c fn now s k hn (Or.inl hl)
+  rcases update_result c fn k .zset n now s with ⟨e, h1, h2, h3, h4⟩ | ⟨h1, h3, h4⟩ | ⟨e, h1, h2, h4, _⟩
+  · left; exact ⟨e, by rw [← hs, h1], h2, h3, h4⟩
+  · right; left; exact ⟨by rw [← hs, h1], h3, h4⟩
+  · right; right; exact ⟨e, by rw [← hs, h1], h2, h4⟩
+
+/-- … and the single-call ZADD is the prescribed store's single step (an instance of `never_late`). -/
+theorem multi_member_write_refines (c : Cfg) (hl : c.lazy "zadd_many" = true) (k : Key) (times : List Nat) (s : Shard)
+    (hn : NodupKeys s.data) :
+    (zaddCmd c true k times s).2 = (Spec.step (.update "zadd_many" k .zset times.length) (times.headD 0) s.data).2 ∧
+    Spec.purge (times.headD 0) (zaddCmd c true k times s).1.data =
+      (Spec.step (.update "zadd_many" k .zset times.length) (times.headD 0) s.data).1 := by
+  have := step_refines c (.update "zadd_many" k .zset times.length) (times.headD 0) s hn (Or.inl hl)
+  simp only [zaddCmd, if_true]
+  exact ⟨this.2, this.1⟩
+
+/-- The part that holds for the per-member loop: when no iteration reads the clock past the deadline, every member joins
+    the live key (the loop equals the single call). -/
+theorem multi_member_write_partial (c : Cfg) (fn : String) (k : Key) (times : List Nat) (s : Shard) (e : Stored)
+    (hl : lookup s.data k = some e) (ht : e.tag = .zset) (hv : ∀ t ∈ times, expired t e = false) :
+    lookup (perMemberRun c fn k times s).1.data k = some { e with val := e.val + times.length } ∧
+    (perMemberRun c fn k times s).2 = times.length :=
+  perMemberRun_live c fn k times s e hl ht hv
+
+/-- The per-member loop is NOT atomic, even with every function lazily checked: `ZADD z 0 seed; PEXPIRE z 130;
+    ZADD z <4 pairs>` whose iterations run at 100, 120, 140, 160 ms answers 4, puts two members into the expiring key
+    (removed with it by the third iteration's lazy test) and creates a NEW key without TTL holding the other two: neither
+    the 1 + 4 members of "before the deadline" nor the 4 members of "after it". -/
+theorem multi_member_write_fails_per_member :
+    let s : Shard := ⟨[(kA, ⟨.zset, 1, some 130⟩)], [(kA, 130)]⟩
+    (zaddCmd Cfg.fixed false kA [100, 120, 140, 160] s).2 = .num 4 ∧
+    lookup (zaddCmd Cfg.fixed false kA [100, 120, 140, 160] s).1.data kA = some ⟨.zset, 2, none⟩ ∧
+    lookup (zaddCmd Cfg.fixed true kA [100, 120, 140, 160] s).1.data kA = some ⟨.zset, 5, some 130⟩ ∧
+    lookup (zaddCmd Cfg.fixed true kA [140, 160, 180, 200] s).1.data kA = some ⟨.zset, 4, none⟩ := by
+  decide
+
+/-- TABLE: the sorted-set write handlers are either all per-member loops over lazily checked, reaping `zadd` / `zrem`
+    (today: the witness above applies) or all single storage calls `zadd_many` / `zrem_many` / `zpop`, lazily checked,
+    reaping and index-maintaining (after C02_5). -/
+theorem zset_handlers_match_model :
+    (Gen.zsetOneCall = false ∧ (∀ fn ∈ ["zadd", "zrem", "zrange"], fn ∈ Gen.lazyChecked ∧ fn ∈ Gen.reaping)) ∨
+    (Gen.zsetOneCall = true ∧ (∀ fn ∈ ["zadd_many", "zrem_many", "zpop"], fn ∈ Gen.lazyChecked ∧ fn ∈ Gen.reaping) ∧
+      Gen.emptiedDropsIndex = true) := by decide
+
+/-- THE CURRENT TREE, as soon as the translator sees the single storage calls: ZADD with any number of pairs, executed at
+    any instant, is the prescribed store's single step. -/
+theorem code_multi_member_atomic (h : Gen.zsetOneCall = true) (k : Key) (times : List Nat) (s : Shard) (hn : NodupKeys s.data) :
+    (zaddCmd codeCfg Gen.zsetOneCall k times s).2 = (Spec.step (.update "zadd_many" k .zset times.length) (times.headD 0) s.data).2 ∧
+    Spec.purge (times.headD 0) (zaddCmd codeCfg Gen.zsetOneCall k times s).1.data =
+      (Spec.step (.update "zadd_many" k .zset times.length) (times.headD 0) s.data).1 := by
+  have hz : Gen.zsetOneCall = true → codeCfg.lazy "zadd_many" = true := by decide
+  rw [h]
+  exact multi_member_write_refines codeCfg (hz h) k times s hn
 
 /-! ### Non-vacuity -/
 
